@@ -374,17 +374,38 @@ func (fo *folder) freshCallee(call *ast.CallExpr) (*types.Func, *ast.FuncDecl) {
 	return f.Origin(), fd
 }
 
+// recursive reports whether f can reach itself through references to itself or to other fresh functions: splicing such
+// a function into its callers would unroll the recursion instead of removing the call.
 func (fo *folder) recursive(f *types.Func, fd *ast.FuncDecl) bool {
-	rec := false
-	ast.Inspect(fd.Body, func(x ast.Node) bool {
-		if id, ok := x.(*ast.Ident); ok {
-			if u, ok := fo.info.Uses[id].(*types.Func); ok && u.Origin() == f {
-				rec = true
+	seen := map[*types.Func]bool{}
+	var visit func(g *types.Func, gd *ast.FuncDecl) bool
+	visit = func(g *types.Func, gd *ast.FuncDecl) bool {
+		rec := false
+		ast.Inspect(gd.Body, func(x ast.Node) bool {
+			if rec {
+				return false
 			}
-		}
-		return !rec
-	})
-	return rec
+			if id, ok := x.(*ast.Ident); ok {
+				if u, ok := fo.info.Uses[id].(*types.Func); ok {
+					u = u.Origin()
+					if u == f {
+						rec = true
+						return false
+					}
+					if ud := fo.fresh[u]; ud != nil && !seen[u] {
+						seen[u] = true
+						if visit(u, ud) {
+							rec = true
+							return false
+						}
+					}
+				}
+			}
+			return true
+		})
+		return rec
+	}
+	return visit(f, fd)
 }
 
 func (fo *folder) foldRound() bool {
@@ -870,7 +891,34 @@ func (fo *folder) foldStmt(s ast.Stmt, within *ast.FuncDecl) ([]ast.Stmt, bool) 
 			}
 			return true
 		})
-		if !assigned && (pureExpr(arg) || uses <= 1) {
+		// an argument with effects may replace the parameter only where that keeps when and how often it is evaluated:
+		// a single use, in the helper's first statement, outside loops and function literals
+		early := false
+		if !pureExpr(arg) && uses == 1 && len(hd.Body.List) > 0 {
+			var scan func(n ast.Node, ok bool)
+			scan = func(n ast.Node, ok bool) {
+				ast.Inspect(n, func(x ast.Node) bool {
+					switch y := x.(type) {
+					case *ast.ForStmt, *ast.RangeStmt, *ast.FuncLit:
+						if ok {
+							scan(y, false)
+							return false
+						}
+					case *ast.Ident:
+						if fo.info.Uses[y] == po && ok {
+							early = true
+						}
+					}
+					return true
+				})
+			}
+			switch first := hd.Body.List[0].(type) {
+			case *ast.ForStmt, *ast.RangeStmt:
+			default:
+				scan(first, true)
+			}
+		}
+		if !assigned && (pureExpr(arg) || early) {
 			cl.subst[po] = arg
 			return true
 		}
